@@ -3,11 +3,11 @@ from . import common as C
 
 LEAN_MODULE = "Urandom.Props.C18"
 DISAGREEMENT_IS_FAILING_INPUT = False
-RULE = ("requests: Read over an adversarial scripted reader (1-byte reads, random chunk sizes, Interrupted before any chunk, an I/O error of every kind - Other, WouldBlock, TimedOut, UnexpectedEof, BrokenPipe, InvalidData, OutOfMemory, Unsupported - or end of data at every offset) under "
+RULE = ("requests: Read over an adversarial scripted reader (1-byte reads, random chunk sizes, Interrupted before any chunk, an I/O error of every kind - Other, WouldBlock, TimedOut, UnexpectedEof, BrokenPipe, InvalidData, OutOfMemory, Unsupported - or end of data at every offset; a quarter of the readers bring their own read_exact from which Interrupted escapes after partial progress, `rx=naive`) under "
         "random interleavings of next_u32 / next_u64 / fill_bytes(len) / jump with panics caught per operation; Mock over word lists incl. exhaustion and jump. "
         "Every output (value, bytes, panic) compared with the model; oracle: successful outputs are exactly the next bytes of the data in order, little-endian. "
         "non-trivial = at least one op; distinct = distinct request line")
-ASSUMPTIONS = ["std::io::Read::read_exact is modelled by its documented loop"]
+ASSUMPTIONS = ["std::io::Read::read_exact is modelled by its documented loop", "for a reader with its own read_exact (rx=naive) an escaping Interrupted is modelled as an error of the call (the generator panics); the oracle accepts a panic or exactly the next source bytes"]
 
 
 def ops(r, n):
@@ -39,7 +39,8 @@ def generate(r, tier, build):
         sc = script(r, r.below(30)) if r.chance(4, 5) else []
         if r.chance(1, 2):
             sc = [x for x in sc if not x.startswith("e")]
-        reqs.append("read data=%s script=%s ops=%s" % (data.hex(), ",".join(sc), ",".join(ops(r, r.range(1, 12)))))
+        # a quarter of the readers bring their own read_exact, from which Interrupted escapes after partial progress
+        reqs.append("read data=%s script=%s ops=%s%s" % (data.hex(), ",".join(sc), ",".join(ops(r, r.range(1, 12))), " rx=naive" if r.chance(1, 4) else ""))
     for _ in range(800 * k):
         words = [r.edge64() for _ in range(r.below(12))]
         reqs.append("mock words=%s ops=%s" % (",".join(map(str, words)), ",".join(ops(r, r.range(1, 10)))))
@@ -48,7 +49,8 @@ def generate(r, tier, build):
 
 def corpus(build):
     return ["read data=0102030405060708090a0b0c script=c:1,i,c:2,e,c:100 ops=u32,u32,fill:2,u64",
-            "read data= script= ops=fill:0,u32", "mock words= ops=fill:0,u64", "mock words=1 ops=jump,u32"]
+            "read data= script= ops=fill:0,u32", "read data=0102030405060708090a0b0c script=c:1,i,c:2,c:100 ops=u32,u32,u32 rx=naive",
+            "read data=0102030405060708090a0b0c0d0e0f10 script=c:3,i,i,c:1,i ops=u64,u32,fill:3 rx=naive", "mock words= ops=fill:0,u64", "mock words=1 ops=jump,u32"]
 
 
 def classify(req, model):
